@@ -1,11 +1,12 @@
 """C12 Delimited data round-trips through write and read for every accepted format."""
 import io
 import itertools
+import random
 
 LEVEL = "exploration"
 RULE = (
     "every combination of 18 item delimiters (, ; tab | blank : ' \" \\ a 1 # ~ ae CR LF FF euro) x the 20 permitted quote characters x "
-    "2 escape characters x 2 quoting modes x 4 line delimiters is offered to Cid.read; for each accepted format tables "
+    "2 escape characters x 2 quoting modes x 4 line delimiters is offered to Cid.read (its property rows in an order of their own per format, the escape character left undeclared for half of the formats that ask for the default); for each accepted format tables "
     "of 0-5 rows x 1-4 columns over an alphabet made of that format's delimiter, quote, escape, blank, LF, CR, CRLF, the "
     "empty string and two letters (plus, for every 97th format, cells of 131073-200001 characters) are written with DelimitedRowWriter and read back with delimited_rows (through streams and, for a third of the formats, through real files), and (every 4th "
     "table) written with cutplace.Writer and read with cutplace.rows under an all-Text CID. The oracle is the round trip "
@@ -41,8 +42,15 @@ def spell_delimiter(d):
 
 def cid_rows(fmt, ncols):
     d, q, e, quoting, ld = fmt
-    rows = [["D", "Format", "Delimited"], ["D", "Encoding", "utf-8"], ["D", "Item delimiter", spell_delimiter(d)],
-            ["D", "Quote character", q], ["D", "Escape character", e], ["D", "Quoting", quoting], ["D", "Line delimiter", ld]]
+    properties = [["D", "Encoding", "utf-8"], ["D", "Item delimiter", spell_delimiter(d)], ["D", "Quote character", q], ["D", "Escape character", e],
+                  ["D", "Quoting", quoting], ["D", "Line delimiter", ld]]
+    # the property rows in an order of their own for every format (what a format means does not depend on it), and the
+    # escape character left to its default where the default is what the format asks for
+    order = random.Random(repr(fmt))
+    if e == '"' and order.random() < 0.5:
+        properties = [p for p in properties if p[1] != "Escape character"]
+    order.shuffle(properties)
+    rows = [["D", "Format", "Delimited"]] + properties
     for i in range(ncols):
         rows.append(["F", "c%d" % i, "", "X", "", "Text", ""])
     return rows
